@@ -959,11 +959,33 @@ class Table:
                 # `in [nan]` or `in [0.0]` were dropped with verification off
                 # but returned with it on.
                 table = pq.read_table(src)
+                self._check_row_count(data_file, table.num_rows)
                 table = table.filter(compute_expr)
                 if columns is not None:
                     table = table.select(columns)
                 return table
-            return pq.read_table(src, columns=columns)
+            table = pq.read_table(src, columns=columns)
+            self._check_row_count(data_file, table.num_rows)
+            return table
+
+    @staticmethod
+    def _check_row_count(data_file: DataFile, rows_read: int) -> None:
+        """Fail closed when an UNVERIFIED read yields fewer/more rows than the
+        manifest recorded for the file.
+
+        With checksum verification off, pyarrow's projected and batch readers
+        accept some damaged files (e.g. an inconsistent page header) as "no
+        rows" instead of raising, so a scan silently returned a subset of the
+        table. The record count stored at write time is the cheap cross-check.
+        """
+        from .integrity import CorruptDataError
+
+        expected = data_file.record_count
+        if expected is not None and expected >= 0 and rows_read != expected:
+            raise CorruptDataError(
+                f"Data file {data_file.file_path} yielded {rows_read} row(s) but the manifest "
+                f"records {expected}: the file is damaged or was replaced"
+            )
 
     def _scan_table(
         self,
@@ -1175,7 +1197,9 @@ class Table:
                     data_file_manager.open_parquet_source(data_file.file_path)
                 )
 
+            rows_read = 0
             for batch in pf.iter_batches(batch_size=batch_size, columns=read_columns):
+                rows_read += batch.num_rows
                 # Convert batch to table for filtering
                 table = pa.Table.from_batches([batch])
 
@@ -1187,6 +1211,9 @@ class Table:
 
                 if table.num_rows > 0:
                     yield table.to_pylist()
+
+            if not (verify and data_file.checksum):
+                self._check_row_count(data_file, rows_read)
 
     def iter_records(
         self,
